@@ -73,6 +73,12 @@ def step (st : St) (j : Json) : Except String (St × Drv.Out) := do
       let rest ← asList event (← fld q "restored")
       if orig != rest then
         o := o.mon "dumprestore" "answers-differ" s!"after Dump/Restore REQ {(jList filterJ fs).compress}: original={CacheD.evIds orig} restored={CacheD.evIds rest}"
+      -- both answers are REQ answers: judged like any other, over the store's own listing (the dump)
+      if fs.all (fun f => decide f.WF) && dumped.all (fun e => e.tags.all (· != [])) then
+        let v := CacheSpec.findAllowed dumped fs orig
+        if !v.ok then o := o.mon "replies" s!"cache.req-{v.cls}" s!"REQ {(jList filterJ fs).compress} over {CacheD.evIds dumped} = {CacheD.evIds orig}: {v.msg}"
+        let w := CacheSpec.findAllowed dumped fs rest
+        if !w.ok then o := o.mon "dumprestore" s!"restored-{w.cls}" s!"restored store: REQ {(jList filterJ fs).compress} over {CacheD.evIds dumped} = {CacheD.evIds rest}: {w.msg}"
       match st.c.find id fs, rc.find id fs with
       | .ok a, .ok b =>
         if a != orig then o := o.diff s!"query on original: impl={CacheD.evIds orig} model={CacheD.evIds a}"
